@@ -39,6 +39,10 @@ AGG_POOL = [
   ('nopattern', {'xFilesFactor': '0.3', 'aggregationMethod': 'max'}),
 ]
 NAMES = ['a.b', 'a.x', 'x.b', 'c', 'zzz', 'ab']
+# the pattern is a regular expression searched in the metric name: shapes that a shortcut around the regex engine
+# (literal-prefix tests, joined alternations, anchoring by hand) gets wrong
+PATTERN_POOL = [r'^a\.|^x\.', r'^zz|\.b$', r'^zzz|c', r'^(a|x)\.', r'^ab?$', r'^[ax]\.', r'^a\.b$', r'a|^c', r'(?i)^A\.', r'^(?!a)',
+                r'^a\.*', r'^a.', r'b', r'^$', r'.*', r'^x\.b|^a\.x|^c$']
 
 
 def render(sections):
@@ -317,6 +321,11 @@ def cases(ctx):
   for sf in schema_files[:: max(1, len(schema_files) // 12)]:
     for af in agg_files[:: max(1, len(agg_files) // 6)]:
       out.append((sf, af))
+  # the pattern language: each pool pattern first, a catch-all section behind it
+  for pat in PATTERN_POOL:
+    out.append(([('p', {'pattern': pat, 'retentions': '7s:100s'}), ('rest', {'pattern': '.*', 'retentions': '1h:2w'})],
+                [('p', {'pattern': pat, 'xFilesFactor': '0.25', 'aggregationMethod': 'min'}),
+                 ('rest', {'pattern': '.*', 'xFilesFactor': '0.75', 'aggregationMethod': 'max'})]))
   return out
 
 
